@@ -39,9 +39,9 @@ def gen(seed, tier="quick"):
     def arr(dims):
         return g.add_ann({"k": "arr", "dtype": "Float", "atype": "np", "dims": dims, "toks": []})
 
-    q1, q2, q3, q4 = arr("?n"), arr("?n a"), arr("*?v"), arr("#?n")
+    q1, q2, q3, q4, q5 = arr("?n"), arr("?n a"), arr("*?v"), arr("#?n"), arr("#*?v")
     plain_n, plain_v = arr("n"), arr("*v")
-    kinds = {"q1": q1, "q2": q2, "q3": q3, "q4": q4,
+    kinds = {"q1": q1, "q2": q2, "q3": q3, "q4": q4, "q5": q5,
              "tup": g.add_ann({"k": "tuple", "items": [q1, "int"]}),
              "uni": g.add_ann({"k": "union", "items": [q1, "str"]}),
              "nest": g.add_ann({"k": "tree", "leaf": q1, "struct": None}),
@@ -51,7 +51,8 @@ def gen(seed, tier="quick"):
     a = r.choice((2, 3))
 
     def leafval(size):
-        base = {"q1": [size], "q4": [size], "q2": [size, a], "q3": [size, 2] if size % 2 else [size]}.get(lk, [size])
+        base = {"q1": [size], "q4": [size], "q2": [size, a], "q3": [size, 2] if size % 2 else [size],
+                "q5": [size, 3] if size % 2 else [1, 3]}.get(lk, [size])
         v = {"t": "np", "s": base, "d": "float32"}
         if lk == "tup":
             return {"t": "tuple", "c": [v, {"t": "int", "v": 1}]}
